@@ -51,6 +51,7 @@ package protocol
 //@   requires[C01] history: mayWrite(pkt)
 //@   assigns t.BytesSent, #lastType, #lastStatus, #errSent, #hsOK, #tcOK, #taOK, #ccOK, #closeOK
 //@   ensures[C01] written: written(pkt)
+//@   site transport.Transport.WritePacket requires[C06] verbatim: arg1 == pkt && arg0 == t.transportOut
 //@   nopanic[C10]
 
 //@ func (*Tunnel).Read
@@ -174,4 +175,6 @@ package protocol
 //@   ensures[C01] errorEnds: #errSent ==> result != nil
 //@   ensures[C01] cleanEnd: result == nil ==> #closeOK
 //@   site (*Tunnel).Write requires[C16] respType: le16(arg1, 0) == uint16(respTypeOf(pt))
+//@   site receive requires[C06] payload: arg0 == pkt && arg1 == p.tunnel.rwc
+//@   site forward requires[C06] pair: arg0 == p.tunnel.rwc && arg1 == p.tunnel
 //@   nopanic[C10]
